@@ -95,3 +95,51 @@ Theorem cli_display_total_refuted :
     forallb wire_resp rs = true /\ snd (query_display true jv dt qt with_ts rs) = Panic w.
 Proof. exact cli_display_refuted_lemma. Qed.
 Print Assumptions cli_display_total_refuted.
+
+(** 2'. A multi notification whose every update was rejected (errlist as long
+    as the update list, no deletes) leaves every stored leaf as it was. *)
+Theorem rejected_all_preserves :
+  forall fl c n c' es, ingest fl c n = (c', GErrs es) ->
+    List.length es = List.length (n_upd n) -> n_del n = [] -> dump c' = dump c.
+Proof. exact rejected_all_preserves_gen. Qed.
+Print Assumptions rejected_all_preserves.
+
+(** 1'. The periodic metadata refresh (Cache.UpdateMetadata reading back the
+    leaves under meta/) never panics in a state reached through patched ingest:
+    [st_wf2] (st_wf + every leaf at meta/<registered name> holds the asserted
+    kind) holds initially, is preserved, and implies [refresh = Ok]. *)
+Theorem refresh_total :
+  forall c, st_wf2 c -> refresh c = Ok tt.
+Proof. exact refresh_total_lemma. Qed.
+Print Assumptions refresh_total.
+
+Theorem refresh_wf_initial :
+  forall names, ~ In ""%string names -> st_wf2 (new_cstate names).
+Proof. exact st_wf2_new. Qed.
+Print Assumptions refresh_wf_initial.
+
+Theorem refresh_wf_preserved :
+  forall fl c n, f_nilval fl = false -> f_intmeta fl = false ->
+    st_wf2 c -> wire_notif n = true -> st_wf2 (fst (ingest fl c n)).
+Proof. exact ingest_preserves_wf2. Qed.
+Print Assumptions refresh_wf_preserved.
+
+(** K_P is sound: an empty verdict of the checker on a case means no panic was
+    observed (Subscribe: unless there was no gRPC peer) and the Query dump was
+    unchanged across every rejected message. *)
+Theorem K_sound :
+  forall c, check_case c = [] -> case_obs_ok c.
+Proof. exact check_case_sound. Qed.
+Print Assumptions K_sound.
+
+(** 6. The target manager's handling of one received response. *)
+Theorem manager_handle_total :
+  forall r w, manager_handle r <> Panic w.
+Proof. exact TotalProofs.manager_handle_total. Qed.
+Print Assumptions manager_handle_total.
+
+(** the state hypothesis "no target registered under the empty name" is needed *)
+Theorem ingest_total_needs_named_targets :
+  exists n w, wire_notif n = true /\ snd (ingest fixed_flags (new_cstate [""%string]) n) = GPanic w.
+Proof. exact ingest_needs_named_targets. Qed.
+Print Assumptions ingest_total_needs_named_targets.
